@@ -113,7 +113,7 @@ class ReactiveStdin(object):
     errors = "strict"
 
 
-def run_builder(fam, all_metrics, no_colors, script, default=None, max_questions=400):
+def run_builder(fam, all_metrics, no_colors, script, default=None, max_questions=400, version_arg=None):
     """Runs the real ask_interactively. Returns dict(result|eof|exc, asked, prompts, answers, out)."""
     import cvss.interactive as I
 
@@ -132,7 +132,8 @@ def run_builder(fam, all_metrics, no_colors, script, default=None, max_questions
     res = {}
     try:
         try:
-            res["result"] = I.ask_interactively(VERSION_ARG[fam], all_metrics, no_colors)
+            res["result"] = I.ask_interactively(VERSION_ARG[fam] if version_arg is None else version_arg,
+                                                all_metrics, no_colors)
         except EOFError:
             res["eof"] = True
         except EndOfScript as e:
